@@ -79,14 +79,18 @@ func (k *Keeper) SetBalance(ctx sdk.Context, addr common.Address, amount *big.In
 	delta := new(big.Int).Sub(amount, balance)
 	switch delta.Sign() {
 	case 1:
-		// mint
+		// mint, on a branch of the state that is written only when the credit goes through: a refused credit (a
+		// blocked address such as a module account) must not leave the freshly minted coins behind in the module
+		// account, where they would stay even though the EVM call that caused them fails
 		coins := sdk.NewCoins(sdk.NewCoin(params.EvmDenom, sdkmath.NewIntFromBigInt(delta)))
-		if err := k.bankKeeper.MintCoins(ctx, types.ModuleName, coins); err != nil {
+		cacheCtx, writeCache := ctx.CacheContext()
+		if err := k.bankKeeper.MintCoins(cacheCtx, types.ModuleName, coins); err != nil {
 			return err
 		}
-		if err := k.bankKeeper.SendCoinsFromModuleToAccount(ctx, types.ModuleName, cosmosAddr, coins); err != nil {
+		if err := k.bankKeeper.SendCoinsFromModuleToAccount(cacheCtx, types.ModuleName, cosmosAddr, coins); err != nil {
 			return err
 		}
+		writeCache()
 	case -1:
 		// burn
 		coins := sdk.NewCoins(sdk.NewCoin(params.EvmDenom, sdkmath.NewIntFromBigInt(new(big.Int).Neg(delta))))
